@@ -183,7 +183,9 @@ def remove_redundant_chained_calls(source: str) -> str:
         "sorted": {"list", "sorted", "tuple", "iter", "reversed"},
         "list": {"list", "tuple", "iter"},
         "set": {"set", "list", "sorted", "tuple", "iter", "reversed"},
-        "iter": {"list", "tuple", "iter"},
+        # iter(list(x)) goes over a copy of x: what it yields later does not depend on what
+        # happens to x in the meantime (and an iterator x is consumed now, not later)
+        "iter": {"iter"},
         "tuple": {"list", "tuple", "iter"},
         "sum": {"list", "tuple", "iter", "sorted", "reversed"},
     }
